@@ -29,7 +29,28 @@ THEOREMS = {
     "C17": ["Cntgs.C17.failed_allocation_is_clean", "Cntgs.C17.reallocate_strong", "Cntgs.C17.copy_assign_fault",
             "Cntgs.C17.allocPair_fault", "Cntgs.C17.construction_fault", "Cntgs.C17.reserve_fault_unchanged",
             "Cntgs.C17.copy_fault_unchanged"],
-    "C05": ["Cntgs.C05.fields_greedy", "Cntgs.C05.alignUp_is_lowest", "Cntgs.C05.elements_greedy", "Cntgs.C05.units_tight"],
+    "C05": ["Cntgs.C05.fields_greedy", "Cntgs.C05.alignUp_is_lowest", "Cntgs.C05.elements_greedy", "Cntgs.C05.units_tight",
+            "Cntgs.elemSize_fixed"],
+    "C01": ["Cntgs.C01.history_offset_table_partial", "Cntgs.C01.history_stride_partial", "Cntgs.C01.history_cap",
+            "Cntgs.C01.erase_returns_follower", "Cntgs.VarInv.history", "Cntgs.FixInv.history", "Cntgs.VarInv.history_noreloc",
+            "Cntgs.VarInv.abs_eq", "Cntgs.FixInv.abs_eq"],
+    "C02": ["Cntgs.C02.units_cover", "Cntgs.C02.fit_stride", "Cntgs.C02.history_stride_inside", "Cntgs.elemSize_fixed", "Cntgs.fixed_fit"],
+    "C06": ["Cntgs.C06.lifetimes_offset_table", "Cntgs.C06.lifetimes_stride", "Cntgs.C06.history_offset_table_partial",
+            "Cntgs.C06.history_stride_partial", "Cntgs.C06.history_no_relocation", "Cntgs.C06.erase_destroys_exactly",
+            "Cntgs.C06.overlap_counter_witness", "Cntgs.C06.moved_from_holds_nothing"],
+    "C09": ["Cntgs.C09.copy_construction", "Cntgs.C09.copy_construction_failed", "Cntgs.C09.independent", "Cntgs.C09.move_construction",
+            "Cntgs.C09.swap_exchanges", "Cntgs.C09.self_operations", "Cntgs.C09.copy_assignment", "Cntgs.C09.move_assignment_steal",
+            "Cntgs.C09.move_assignment_elementwise", "Cntgs.C09.moved_from_usable"],
+    "C10": ["Cntgs.C10.within_capacity_is_noop", "Cntgs.C10.capacity_after", "Cntgs.C10.keeps_fixed_sizes",
+            "Cntgs.C10.keeps_contents_offset_table", "Cntgs.C10.keeps_contents_stride", "Cntgs.C10.repeated"],
+    "C16": ["Cntgs.C16.emplace_keeps_addresses", "Cntgs.C16.pop_keeps_addresses", "Cntgs.C16.clear_keeps_addresses",
+            "Cntgs.C16.eraseRange_keeps_front", "Cntgs.C16.erase_keeps_front", "Cntgs.C16.reserve_within_capacity",
+            "Cntgs.C16.inplace_ops_no_allocation", "Cntgs.C16.ops_keep_block", "Cntgs.C16.capacity_changes_only_by_reserve",
+            "Cntgs.C16.swap_no_allocation", "Cntgs.C16.move_no_allocation", "Cntgs.C16.move_keeps_addresses"],
+    "C18": ["Cntgs.C18.empty_offset_table", "Cntgs.C18.empty_stride", "Cntgs.C18.fresh_offset_table", "Cntgs.C18.fresh_stride",
+            "Cntgs.C18.default_offset_table", "Cntgs.C18.default_stride", "Cntgs.C18.emptied_offset_table_partial",
+            "Cntgs.C18.emptied_stride_partial", "Cntgs.C18.ops_on_empty_offset_table", "Cntgs.C18.ops_on_empty_stride",
+            "Cntgs.C18.junk_independent_partial", "Cntgs.C18.usable_afterwards_partial", "Cntgs.C18.destroy_default"],
 }
 
 # violation tags raised by the harness monitors that count for a property
